@@ -259,3 +259,71 @@ def c11_2(run):
     if 'Ok' not in seen:
         raise Inconclusive('vacuity')
     run.require_reached(*run.cur.reach)
+
+
+# ----------------------------------------------------------------------------------------------------------------- C11-3
+@obligation('C11', 'C11-3 SubmissionStateAtStartup::new_from_path: the state read from the file is re-written unchanged (writability check) and mapped field by field to the startup state')
+def c11_3(run):
+    holder = {}
+
+    def h_read(ctx):
+        st = ctx.st
+        okv = z3.Bool('state_read_ok')
+        st.log.append(('state_read', okv))
+        return [(None, M.thunk_future(lambda ex, s2, fut: [(okv, (lambda s3: ok(s3.tr(holder['state'])))), (z3.Not(okv), (lambda s3: err(Obj('eyre::Report', kind='error'))))]))]
+
+    def h_write(ctx):
+        st = ctx.st
+        s = ctx.ex.deref_val(st, ctx.args[0])
+        okv = z3.Bool('state_write_ok')
+        st.log.append(('state_write', okv, ctx.ex.copy_val(s)))
+        return [(None, M.thunk_future(lambda ex, s2, fut: [(okv, ok(())), (z3.Not(okv), (lambda s3: err(Obj('eyre::Report', kind='error'))))]))]
+    opq = lambda ty: (lambda ctx: [(None, Obj(ty, kind='opaque'))])
+    hooks = [(re.compile(r'(^|::)State::read$'), h_read), (re.compile(r'(^|::)State::write$'), h_write),
+             (re.compile(r'AsRef<(std::path::)?Path>>::as_ref$|Path::to_path_buf$|Path::with_extension|Path::extension$|OsStr::to_str$|as Deref>::deref$'), None)]
+    ex = loader.load(['astria-sequencer-relayer'], hooks=[h for h in hooks if h[1] is not None],
+                     scalar_types={'tendermint::block::Height': 64, 'SequencerHeight': 64, 'BlobTxHash': 256, 'relayer::celestia_client::BlobTxHash': 256, 'std::time::SystemTime': 128, 'SystemTime': 128})
+    cands = [n for n in ex.fns if n.endswith('::new_from_path') and 'closure' not in n]
+    if len(cands) != 1:
+        raise Inconclusive(f'new_from_path not found: {cands}')
+    run.bound(file='State::read is an oracle yielding any of the three states with arbitrary field values (or failing); State::write is an oracle that may fail', paths='std::path manipulation is havocked')
+    adt = ex.adts.lookup('relayer::submission::State')
+    vfields = {v['name']: list(v.get('fields', [])) for v in adt['variants']}
+    seen = set()
+    for variant in ('Fresh', 'Started', 'Prepared'):
+        s = Obj('relayer::submission::State'); s.discr = variant
+        vals = {}
+        if variant in ('Started', 'Prepared'):
+            ls = _completed(ex, 'last'); s.fields[(variant, vfields[variant].index('last_submission'))] = ls
+        if variant == 'Prepared':
+            vals = dict(sequencer_height=z3.BitVec('prepared_sequencer_height', 64), blob_tx_hash=z3.BitVec('blob_tx_hash', 256), at=z3.BitVec('created_at', 128))
+            for k_, v_ in vals.items():
+                s.fields[(variant, vfields[variant].index(k_))] = v_
+        holder['state'] = s
+        st = ex.start(cands[0], [Obj('std::path::PathBuf', kind='opaque')])
+        for i, p in enumerate(run.explore(ex, st, poll=True, allow_havoc=(r'^Arguments::|fmt::', r'Path', r'OsStr', r'format', r'PathBuf', r'as_ref'))):
+            lab = f'[file holds {variant}, path {i}]'
+            if p.kind != 'return':
+                run.prove(f'no panic {lab}', p.pc, z3.BoolVal(False), detail=p.info); continue
+            kind, r = A.poll_result(p); seen.add(kind)
+            ws = [e for e in p.log if e[0] == 'state_write']
+            run.sample({'file': variant, 'path': i, 'result': kind, 'writes': len(ws)})
+            if kind != 'Ok':
+                continue
+            su = ex.deref_val(p, r.fields[('Ok', 0)])
+            claim = [z3.Bool('state_read_ok'), z3.BoolVal(len(ws) == 1)]
+            if ws:
+                d, _ = _state_fields(ex, p, ws[0][2])
+                claim += [ws[0][1], z3.BoolVal(d == variant)]
+            claim.append(z3.BoolVal(su.discr == variant))
+            if su.discr == variant and variant != 'Fresh':
+                inner = ex.deref_val(p, su.fields[(variant, 0)])
+                lc, lsq = B.fld(ex, p, B.fld(ex, p, inner, 'last_submission', 'CompletedSubmission'), 'celestia_height', 'u64'), B.fld(ex, p, B.fld(ex, p, inner, 'last_submission', 'CompletedSubmission'), 'sequencer_height', 'SequencerHeight')
+                claim += [lc == z3.BitVec('last_celestia_height', 64), lsq == z3.BitVec('last_sequencer_height', 64)]
+                if variant == 'Prepared':
+                    claim += [B.fld(ex, p, inner, 'sequencer_height', 'SequencerHeight') == vals['sequencer_height'], B.fld(ex, p, inner, 'blob_tx_hash', 'BlobTxHash') == vals['blob_tx_hash'],
+                              B.fld(ex, p, inner, 'created_at', 'SystemTime') == vals['at']]
+            run.prove(f'Ok => the file was read, re-written once with the same state, and the startup state carries exactly the stored fields {lab}', p.pc, z3.And(*claim))
+    if 'Ok' not in seen:
+        raise Inconclusive('vacuity')
+    run.require_reached(*run.cur.reach)
